@@ -67,6 +67,7 @@ func main() {
 		explore.Register(hconn.TimeoutHarness(name, T, 0, T-1, pg, 0))
 		ths = append(ths, name)
 	}
+	srvs := hconn.RegisterServer()
 	if hmodel.Dispatch() {
 		return
 	}
@@ -92,6 +93,10 @@ func main() {
 		hmodel.RunHarness(c, "C16", t, s.Name, b, generic...)
 	}
 	lengths := map[string]int{}
+	// the server itself: listener, accept loop, connection handler (same two phases)
+	for _, d := range srvs {
+		fhs = append(fhs, fh{d.Name, d.QB, d.TB, d.Quick})
+	}
 	for phase := 1; phase <= 2; phase++ {
 		for _, h := range fhs {
 			if !h.quick && !c.Thorough() {
